@@ -12,6 +12,8 @@ import H3.Drv.C12
 import H3.Drv.C07
 import H3.Drv.C19
 import H3.Drv.C04
+import H3.Drv.C08
+import H3.Drv.C09
 open H3.Drv
 
 def dispatch (ws : List String) : String :=
@@ -31,6 +33,8 @@ def dispatch (ws : List String) : String :=
     else if e == "iso" then H3.Drv.C07.handle ws
     else if e == "wt" then H3.Drv.C19.handle ws
     else if e == "ctl" then H3.Drv.C04.handle ws
+    else if e == "goaway" || e == "goawayj" then H3.Drv.C08.handle ws
+    else if e == "drain" then H3.Drv.C09.handle ws
     else "bad-op"
 
 partial def loop (h : IO.FS.Stream) (out : IO.FS.Stream) : IO Unit := do
